@@ -17,10 +17,11 @@ ASSUMPTIONS = ["masters obey their protocol (Wishbone: request held until termin
                "slaves may stay silent forever; when they answer they do so legally",
                "time-outs enumerated {1,2,3,5}, 1..2 masters, 2 slaves + unmapped hole",
                "the mechanism signal 'grant' of the real arbiter is used to define 'granted the bus' (not observable at the ports)"]
-BOUNDS = {"quick": "BMC K = timeout + 9 cycles from reset", "thorough": "BMC K = timeout + 14 cycles from reset"}
+BOUNDS = {"quick": "BMC K = timeout + 9 cycles from reset (Wishbone, AXI-Lite; AXI4 with bursts of 1..3 beats: K = timeout + 11, one shape)", "thorough": "BMC K = timeout + 14 cycles from reset; AXI4: three shapes"}
 OUTSIDE = "time-outs > 5 cycles (the timer is a plain down counter: step lemma in C19); more than 2 masters"
 FUNCS = ["litex.gen.genlib.misc.WaitTimer", "litex.soc.interconnect.wishbone.Timeout", "litex.soc.interconnect.wishbone.InterconnectShared",
          "litex.soc.interconnect.axi.axi_lite.AXILiteTimeout", "litex.soc.interconnect.axi.axi_lite.AXILiteInterconnectShared",
+         "litex.soc.interconnect.axi.axi_full.AXITimeout", "litex.soc.interconnect.axi.axi_full.AXIInterconnectShared",
          "litex.soc.integration.soc.SoCController (bus_errors)"]
 
 
